@@ -13,6 +13,7 @@ import Rooc.Proofs.Cert
 import Rooc.Proofs.SolverWrap
 import Rooc.Proofs.ComposeNames
 import Rooc.Proofs.ComposeSimplexExamples
+import Rooc.Proofs.ComposeSlow
 import Mathlib.Data.Rat.Floor
 namespace Rooc.Props.C04
 open Rooc Rooc.Cert Rooc.SolverWrap
@@ -287,6 +288,36 @@ theorem slow_simplex_solution_exact_partial {lm : LinModel (Ext K)} (hW : WF lm)
   obtain ⟨hperm, hval, _, _⟩ := asLpSolution_feasible_partial hW hnd hpl hs _ hF
     (Ext.fin (Tableau.optimalValue (Tableau.solve (0:K) stallExtra limit prefer T).final))
   exact ⟨_, hfeas, hopt, by rw [← hvalue]; rfl, hperm, hval⟩
+
+/-! #### the diffed whole-function model IS this composition
+
+`SlowSimplex.solveReal` (`Rooc/SlowSimplex.lean`) is the model of the entry point `solve_real_lp_problem_slow_simplex`
+that `./check C04` / `C05` compare bit for bit with the real function on every generated model.  The three lemmas below
+(every number type) say that its answers are exactly the stage-wise events the theorems above and in C05 speak about. -/
+
+/-- a returned `LpSolution` = the three stages succeeded, the loop stopped `Finished`, and the solution is
+`as_lp_solution` of `variables_values` / `optimal_value` of the final tableau under the standard form's names. -/
+theorem slow_simplex_entry_ok_iff {α : Type} [Arith α] (tol : α) (se p1 : Nat) (lm : LinModel α) (limit : Int)
+    (sol : Solution α) :
+    SlowSimplex.solveReal tol se p1 lm limit = .ok sol ↔
+      ∃ sm T, Standardize.standardize lm = .ok sm ∧ Tableau.intoTableau tol se p1 sm = .ok T ∧
+        (Tableau.solve tol se limit.toNat [] T).result = .ok () ∧
+        sol = asLpSolution sm.vars (Tableau.variablesValues (Tableau.solve tol se limit.toNat [] T).final)
+          (Tableau.optimalValue (Tableau.solve tol se limit.toNat [] T).final) :=
+  SlowSimplex.solveReal_ok_iff tol se p1 lm limit sol
+
+/-- `Err(Unbounded)` exactly when the loop reports it. -/
+theorem slow_simplex_entry_unbounded_iff {α : Type} [Arith α] (tol : α) (se p1 : Nat) (lm : LinModel α) (limit : Int) :
+    SlowSimplex.solveReal tol se p1 lm limit = .err "Unbounded" ↔
+      ∃ sm T, Standardize.standardize lm = .ok sm ∧ Tableau.intoTableau tol se p1 sm = .ok T ∧
+        (Tableau.solve tol se limit.toNat [] T).result = .error .unbounded :=
+  SlowSimplex.solveReal_unbounded_iff tol se p1 lm limit
+
+/-- `Err(Infeasible)` exactly when `into_tableau` reports `Infesible`. -/
+theorem slow_simplex_entry_infeasible_iff {α : Type} [Arith α] (tol : α) (se p1 : Nat) (lm : LinModel α) (limit : Int) :
+    SlowSimplex.solveReal tol se p1 lm limit = .err "Infeasible" ↔
+      ∃ sm, Standardize.standardize lm = .ok sm ∧ Tableau.intoTableau tol se p1 sm = .error .infeasible :=
+  SlowSimplex.solveReal_infeasible_iff tol se p1 lm limit
 
 /-! #### non-vacuity (`K = ℚ`) -/
 section examples
